@@ -166,6 +166,8 @@ def build_value(r):
         return ([1, 2], {"x": 1})
     if k == "scalar_group":
         return (5, {"group": [{"a": 1}]})
+    if k == "scalar_group_empty":
+        return (2.5, {"group": []})
     raise AssertionError(r)
 
 
@@ -177,6 +179,15 @@ def f_dbl(v):
 
 def f_ran(v):
     return ("ran", v)
+
+
+class IdxTag(object):
+    """tags every value with its position in the flow it is given (what it yields for a value
+    depends on the whole flow it sees)"""
+
+    def run(self, flow):
+        for i, v in enumerate(flow):
+            yield ("tagged", i, v)
 
 
 def _is_sel(v):
@@ -235,8 +246,10 @@ ELEMENTS = {
                     "B": GENERIC_B + STR_B + [["hist1d", "plain"], ["hist1d", "variable"], ["hist2d", "combine"], ["hist_strbins"], ["graph"]]},
     "RunIf": {"make": lambda: RunIf(_is_sel, f_ran), "A": [["sel", 1], ["sel", 2], ["sel_pair", 3]],
               "B": GENERIC_B + STR_B + [["hist1d", "plain"], ["graph"]]},
+    "RunIfStateful": {"make": lambda: RunIf(_is_sel, IdxTag(), lena.flow.Count()), "A": [["sel", 1], ["sel", 2], ["sel_pair", 3], ["sel", 4]],
+                      "B": GENERIC_B + STR_B + [["hist1d", "plain"]]},
     "MapGroup": {"make": lambda: MapGroup(f_dbl, map_scalars=False), "A": [["group", 1], ["group", 5]],
-                 "B": GENERIC_B + STR_B + [["list_nogroup"], ["scalar_group"], ["hist1d", "plain"]]},
+                 "B": GENERIC_B + STR_B + [["list_nogroup"], ["scalar_group"], ["scalar_group_empty"], ["hist1d", "plain"]]},
 }
 
 
@@ -353,7 +366,7 @@ FAST = sorted(n for n in ELEMENTS if n not in ("LaTeXToPDF", "PDFToPNG"))
 
 CHECKS = [
     Check("interleave", judge, strategy=lambda tier: cases(names=FAST), quick=2400, thorough=60000,
-          rule="ToCSV, Write, RenderLaTeX, HistToGraph, MapBins, IterateBins, RunIf, MapGroup(map_scalars=False): 0-4 selected values, 0-6 unselected ones from a pool of ~25 per element "
+          rule="ToCSV, Write, RenderLaTeX, HistToGraph, MapBins, IterateBins, RunIf (with a per-value and with a flow-dependent inner sequence), MapGroup(map_scalars=False): 0-4 selected values, 0-6 unselected ones from a pool of ~25 per element "
                "(bare numbers, tuples, foreign objects, None, dicts, strings, pairs with unrelated / variable / scalar-output contexts, and the element's documented disabling cases: output.to_csv False, 3-dimensional histograms, "
                "output.write False, data equal to the path it would write, foreign filetypes, histogram.to_graph False, unselected bin types, non-groups), every interleaving. "
                "Non-trivial = >= 1 selected, >= 2 unselected with a (data, context) pair among them, and an interleaving that is not a concatenation."),
